@@ -86,7 +86,7 @@ def run(module, cfg, workers=16, **kw):
     try:
         return run_once(module, cfg, workers=workers, **kw)
     except TLCError as exc:
-        if workers > 1 and "TLC threw an unexpected exception" in str(exc):
+        if workers > 1 and (getattr(exc, "internal", False) or "TLC threw an unexpected exception" in str(exc)):
             print("note: TLC crashed internally with %d workers; retrying with 1 worker" % workers)
             return run_once(module, cfg, workers=1, **kw)
         raise
@@ -217,7 +217,9 @@ def run_once(
                 fp.write(out[-2000000:])
         except OSError:
             dump = "<not written>"
-        raise TLCError("TLC failed (rc=%s): %s\n%s\n(full output: %s)" % (proc.returncode, res.cmd, tail, dump))
+        err = TLCError("TLC failed (rc=%s): %s\n%s\n(full output: %s)" % (proc.returncode, res.cmd, tail, dump))
+        err.internal = "TLC threw an unexpected exception" in text or "unable to fingerprint" in text
+        raise err
     if simulate is None and res.generated == 0 and res.violation is None:
         raise TLCError("TLC reported no states: %s\n%s" % (res.cmd, text[-2000:]))
     return res
